@@ -122,6 +122,8 @@ type G2LConfig struct {
 	// method key ("pkg.Recv.Method") → Lean template of the NEW VALUE of the receiver's pointee ({0} the pointee,
 	// {1} … the arguments): the statement `x.M(a)` becomes `x := template` (go2lean_effects.go)
 	EffPrims map[string]string
+	Codec    bool              // named results, `*p = v` on in-out parameters, []byte ↔ string, %0*d (go2lean_codec.go)
+	OutPrims map[string]string // call key → template of a primitive that writes through its last argument (go2lean_codec.go)
 }
 
 var g2lBasicDefault = map[string]string{
